@@ -316,7 +316,12 @@ CHECKS["C11"] = {
     "technique": "exhaustive enumeration of add/remove/update/growth histories on the real reduce_ node, result sampled in every cycle and compared "
                  "with the fold of a reference container (bit-disjoint operands identify exactly which elements were folded)",
     "design_ref": "DESIGN.md 2/C11",
-    "parts": [{"name": "reduce", "exe": "c11_reduce", "sources": ["c11_reduce.cpp"], "shards": {"quick": 32, "thorough": 256}}],
+    "parts": [{"name": "reduce", "exe": "c11_reduce", "sources": ["c11_reduce.cpp"], "shards": {"quick": 32, "thorough": 256}},
+              {"name": "keyed", "exe": "c11_keyed", "sources": ["c11_keyed.cpp"], "shards": {"quick": 16, "thorough": 64}}],
+    "rule_keyed": "keyed part: reduce over TSD<Int, TSS<Int>> (collection-valued elements and result: the keyed publication path of reduce_node.cpp) with a "
+                  "set-union combiner node, no zero / a zero written once / a live zero replaced in every cycle; ops add or remove an element of key k's set, erase key k; "
+                  "all op lists of length <=1 over T=4 (5), <=2 over T=2 (3), and 4 ops over T=6 (7) cycles; the probe samples the result in every cycle. "
+                  "dynamic lists: grow-only TSL<TS<Int>> (writing index i grows the list, skipped slots stay unset) with the same combiners and zeros.",
     "rule": "inputs: scripted TSD<Int,TS<Int>> (set key to one of two bit-disjoint powers of two, erase, clear, bulk add of 6 keys crossing leaf "
             "capacities 1->2->4->8->16; thorough: 70 more keys => > 64 live elements) and fixed TSL<TS<Int>,4> (unset slots are not live); "
             "combiners: add_ operator, a static node, a sub-graph; zero = 2^20 or none; every sequence over T cycles of lists of <= L operations "
